@@ -195,6 +195,19 @@ pub fn gen_structured(r: &mut Rng, big: bool) -> rn::Msg {
                 rn::Rr { name: name.clone(), rtype: 1, class: 1, ttl: 60, rdata: r.bytes(4) }
             });
         }
+        // ... and many later mentions of the deepest name: two octets each on the wire, a whole chain each to expand
+        let refs = *r.pick(&[0usize, 0, 10, 60, 250, 700]);
+        let deepest = name.clone();
+        for k in 0..refs {
+            let mut rd = Vec::new();
+            rn::push_name(&mut rd, &deepest);
+            if k % 3 == 0 {
+                rn::push_name(&mut rd, &deepest);
+                stairs.push(rn::Rr { name: deepest.clone(), rtype: 17, class: 1, ttl: 60, rdata: rd });
+            } else {
+                stairs.push(rn::Rr { name: deepest.clone(), rtype: *r.pick(&[2u16, 5, 12]), class: 1, ttl: 60, rdata: rd });
+            }
+        }
         match r.below(3) {
             0 => m.answer.splice(0..0, stairs),
             1 => m.authority.splice(0..0, stairs),
